@@ -15,7 +15,7 @@ PROP = {
     ],
     "streams": [
         {"name": "cont", "driver": "drv_cont",
-         "quick": {"n": 60}, "thorough": {"n": 100, "seeds": 2},
+         "quick": {"n": 60}, "thorough": {"n": 60, "seeds": 2},
          "timeout": {"quick": 300, "thorough": 3000}},
     ],
     "exhaustive": False,
@@ -28,7 +28,7 @@ PROP = {
                   "insert/remove/get/keys/values/containsKey consistency with distinct keys preserved by every operation, "
                   "and persistence in the transaction machine (a history of committed transactions = the same operations in "
                   "memory; an aborted transaction is a no-op).  Tied to /repo by the `cont` correspondence stream: operation "
-                  "sequences (40-300 operations quick, 200-3000 thorough, at most ~300 per transaction) on [Int], [String] (strings up to 1100 chars: "
+                  "sequences (40-300 operations quick, 200-1500 thorough, at most ~300 per transaction) on [Int], [String] (strings up to 1100 chars: "
                   "non-inlinable), [[Int]], [struct], [T; 4] and {Int|String: Int|String|[Int]|struct}, sizes crossing atree slab "
                   "thresholds (hundreds of elements), each transaction either in memory (load, operate, save back) or in "
                   "place through an auth(Mutate) reference into storage, reloaded from the ledger in later transactions, in "
